@@ -774,24 +774,29 @@ impl<C: CellType> OptRebuild<'_, C> {
                                 None,
                             ];
                         } else if inc.variables().all(|x| constant.contains(&x)) {
-                            if let Some(m) = mul
-                                .wrapping_pow(c)
-                                .wrapping_mul(mul)
-                                .wrapping_add(C::NEG_ONE)
-                                .wrapping_div(mul.wrapping_add(C::NEG_ONE))
-                            {
-                                #[cfg(feature = "verif")]
-                                crate::verif::note("motion.geometric_inc");
-                                return [
-                                    Some(
-                                        Expr::val(mul.wrapping_pow(c))
-                                            .mul(Expr::var(var))
-                                            .add(Expr::val(m).mul(inc)),
-                                    ),
-                                    None,
-                                    None,
-                                ];
+                            // Sum of `mul^0 + ... + mul^(c-1)`. Computed by doubling, because
+                            // dividing `mul^c - 1` by `mul - 1` is ambiguous if `mul` is odd.
+                            let mut m = C::ZERO;
+                            let mut pow = C::ONE;
+                            for bit in (0..C::BITS).rev() {
+                                m = m.wrapping_mul(pow.wrapping_add(C::ONE));
+                                pow = pow.wrapping_mul(pow);
+                                if c.wrapping_shr(bit).is_odd() {
+                                    m = m.wrapping_mul(mul).wrapping_add(C::ONE);
+                                    pow = pow.wrapping_mul(mul);
+                                }
                             }
+                            #[cfg(feature = "verif")]
+                            crate::verif::note("motion.geometric_inc");
+                            return [
+                                Some(
+                                    Expr::val(mul.wrapping_pow(c))
+                                        .mul(Expr::var(var))
+                                        .add(Expr::val(m).mul(inc)),
+                                ),
+                                None,
+                                None,
+                            ];
                         }
                     }
                 }
